@@ -1,6 +1,6 @@
 #!/bin/bash
 # runs every registered check (quick tier by default) and prints one line each
-cd /verif
+cd "$(cd "$(dirname "${BASH_SOURCE[0]}")/.." && pwd)"
 tier="${1:-quick}"
 for p in $(/venv/bin/python -c "import sys; sys.path.insert(0,'/verif'); from sim.registry import PROPS; print(' '.join(sorted(PROPS)))"); do
   out=$(timeout 3300 ./check $p --tier $tier 2>&1); rc=$?
